@@ -11,6 +11,10 @@ func init() {
 		"Same runs as C01 with attributable payload bytes (a function of rpc, direction, message index, offset): the tap re-assembles each stream's DATA into gRPC messages and compares every byte, message length and message count with what the application submitted; END_STREAM exactly once, no DATA/HEADERS after own END_STREAM or RST_STREAM; under cancellation, resets, cuts and server stop a stream may end at any prefix but never skip, repeat or reorder.",
 		"Trusted: as C01. Completeness is asserted for streams that ended normally (END_STREAM without RST).",
 		"wire-tap per-stream byte ledger with attributable payloads"))
+	regProp("C29we", we("clientconn.go idle integration (idle.Manager, enterIdleMode/exitIdleMode)").doc(
+		"Real channel with idle timeouts of nanoseconds to seconds (virtual time), bursts of RPCs separated by gaps around the timeout, RPCs that stay active across several timeouts, explicit Connect calls; every RPC must end with exactly its handler's status by its deadline (an RPC caught by an idle entry would fail, hang or be re-sent).",
+		"End-to-end symptom oracle; the exact interleaving semantics are decided by the C29wu part on the idle.Manager itself.",
+		"end-to-end status oracle under tiny idle timeouts"))
 	regProp("C09", we().doc(
 		"Real client and server over simnet; generated metadata maps (legal key alphabet, mixed case via AppendToOutgoingContext, multi-values, empty values, -bin values with arbitrary bytes, values large enough to need CONTINUATION) on many concurrent RPCs so HPACK state is shared across interleaved header blocks, reserved names and invalid pairs inside user metadata; oracle: handler's incoming metadata equals the client's per key and order, client Header()/Trailer() equal what the handler set, nothing user-supplied travels under a reserved name (wire tap), invalid metadata fails INTERNAL with no HEADERS on the wire.",
 		"Input-dominated: the simulation contributes concurrency (shared HPACK tables), segmentation and faults; base64 padding variants from a foreign peer need the scripted peer. content-type is surfaced to handlers by grpc-go and is accepted as transport-added.",
